@@ -243,7 +243,7 @@ func runFullDiskCase(t *rapid.T, fc fullCfg) {
 			return nil
 		}
 		// appends and writes just past the direct blocks (needs an indirect block as well)
-		off := pick(t, []uint64{f.Size, f.Size, 0, f.Size + BlockSize, 8 * BlockSize, 7 * BlockSize, 9 * BlockSize, 520 * BlockSize}, "off")
+		off := pick(t, []uint64{f.Size, f.Size, 0, f.Size + BlockSize, 8 * BlockSize, 7 * BlockSize, 9 * BlockSize, 520 * BlockSize, 519 * BlockSize, 1031 * BlockSize}, "off")
 		cnt := uint32(pick(t, []int{1, 100, 4096, 4097, 8192, 3 * 4096, 20 * 4096, 70 * 4096, 480 * 4096}, "cnt"))
 		return x.Write(LiveRef(f), off, patternData(g.nextTag(), uint64(cnt)), cnt, pick(t, g.Cfg.Stable, "stable"))
 	})
@@ -278,6 +278,10 @@ func runFullDiskCase(t *rapid.T, fc fullCfg) {
 			}
 			nblk := (f.Size + BlockSize - 1) / BlockSize
 			b := rapid.Uint64Range(0, nblk-1).Draw(t, "block")
+			// the first block under each kind of index block (a read there may have to allocate index blocks first)
+			if h := pick(t, []uint64{0, 0, 8, 520, 521, 1031, 1032}, "indexedge"); h != 0 && h < nblk {
+				b = h
+			}
 			return x.Read(LiveRef(f), b*BlockSize, uint32(pick(t, []int{1, 4096, 3 * 4096}, "cnt")))
 		})
 		// sparse files: sizes far beyond the data, so that reads meet holes under missing index blocks
@@ -286,7 +290,7 @@ func runFullDiskCase(t *rapid.T, fc fullCfg) {
 			if f == nil {
 				return nil
 			}
-			sz := uint64(pick(t, []int{9, 12, 30, 520, 521, 600, 1100}, "blocks")) * BlockSize
+			sz := uint64(pick(t, []int{9, 12, 30, 520, 521, 600, 1100, 1100}, "blocks")) * BlockSize
 			return x.Setattr(LiveRef(f), &sz, false)
 		})
 	}
@@ -331,14 +335,7 @@ func runFullDiskCase(t *rapid.T, fc fullCfg) {
 		return nil
 	})
 	// fill: leave exactly r free blocks
-	acts["fill"] = func(t *rapid.T) {
-		if cut {
-			t.Skip("case cut short")
-		}
-		if d.Size() >= 1540+1500 && steps < 25 {
-			t.Skip("on the large disk the journal, not the disk, is the resource that runs out first")
-		}
-		r := uint64(rapid.IntRange(0, 3).Draw(t, "freeblocks"))
+	fillTo := func(t *rapid.T, r uint64) {
 		fs := x.S.N.VerifFsState()
 		x.S.Quiesce()
 		x.logf("fill the disk until exactly %d block(s) are free (now %d)", r, fs.Balloc.NumFree())
@@ -401,7 +398,56 @@ func runFullDiskCase(t *rapid.T, fc fullCfg) {
 			St.Class("fill_stopped_early_inodes_exhausted")
 		}
 	}
+	acts["fill"] = func(t *rapid.T) {
+		if cut {
+			t.Skip("case cut short")
+		}
+		if d.Size() >= 1540+1500 && steps < 25 {
+			t.Skip("on the large disk the journal, not the disk, is the resource that runs out first")
+		}
+		fillTo(t, uint64(rapid.IntRange(0, 3).Draw(t, "freeblocks")))
+	}
 	acts["fill2"] = acts["fill"]
+	if fc.ReadHoles {
+		// a request that needs index blocks and a data block when only some of them can be had:
+		// a sparse file reaching into the double-indirect range, r blocks free, then a READ or WRITE
+		// at the first block under an index block
+		acts["indexedge"] = func(t *rapid.T) {
+			if cut {
+				t.Skip("case cut short")
+			}
+			if d.Size() >= 1540+1500 && steps < 25 {
+				t.Skip("large disk")
+			}
+			f := file(t)
+			if f == nil || strings.HasPrefix(f.Name, "fill") {
+				t.Skip("no file")
+			}
+			if f.Size < 1100*BlockSize {
+				sz := uint64(1100 * BlockSize)
+				judge(x.Setattr(LiveRef(f), &sz, false))
+				if cut || !x.LastOK {
+					return
+				}
+			}
+			fillTo(t, uint64(rapid.IntRange(1, 3).Draw(t, "freeblocks")))
+			if cut {
+				return
+			}
+			b := pick(t, []uint64{8, 520, 521, 1031, 1032}, "block")
+			St.Class("requests_at_an_index_block_edge_with_1_to_3_blocks_free")
+			if rapid.Bool().Draw(t, "read") {
+				wrap("READHOLE", func(t *rapid.T) error {
+					return x.Read(LiveRef(f), b*BlockSize, uint32(pick(t, []int{1, 4096, 3 * 4096}, "cnt")))
+				})(t)
+			} else {
+				wrap("WRITE", func(t *rapid.T) error {
+					cnt := uint32(pick(t, []int{4096, 8192, 3 * 4096}, "cnt"))
+					return x.Write(LiveRef(f), b*BlockSize, patternData(g.nextTag(), uint64(cnt)), cnt, pick(t, g.Cfg.Stable, "stable"))
+				})(t)
+			}
+		}
+	}
 	acts["restart"] = func(t *rapid.T) {
 		if cut {
 			t.Skip("case cut short")
@@ -516,6 +562,18 @@ func TestC10Full(t *testing.T) {
 		runFullDiskCase(t, fullCfg{Prop: "C10", Fsck: FsckOpts{Allocators: true}, ReadHoles: true, Coherence: true,
 			Relevant: func(err error) bool {
 				return errKind(err) == "coherence" || (errKind(err) == "fsck" && strings.Contains(err.Error(), "[allocator]"))
+			}})
+	})
+}
+
+// C02 on nearly-full disks: whatever the server accepted must read back like the reference (a wrong
+// status cannot be judged there, because the reference does not model free space).
+func TestC02Full(t *testing.T) {
+	rapid.Check(t, func(t *rapid.T) {
+		runFullDiskCase(t, fullCfg{Prop: "C02", Fsck: FsckOpts{},
+			Relevant: func(err error) bool {
+				k := errKind(err)
+				return k == "data-exposed" || k == "data-lost" || k == "other"
 			}})
 	})
 }
